@@ -39,6 +39,11 @@ def roundtrip(config, codec, hexbm, msg, use_default_config=False):
         out = iso8583.loads(data, **kw)
     except Exception as ex:
         return exc_sig('loads-raises', ex), f'loads(dumps(m)) raised {ex!r} (cause {getattr(ex, "ex", None)!r}) for {_short(msg)} under {codec} hex={hexbm}'
+    return compare_out(config, msg, out, f'under {codec} hex={hexbm}')
+
+
+def compare_out(config, msg, out, ctxt=''):
+    """C01 equivalence between a message that was sent and the dictionary that came back"""
     allowed_extra = set()
     for b, c in config.items():
         proc = c.get('field_processor')
@@ -57,16 +62,16 @@ def roundtrip(config, codec, hexbm, msg, use_default_config=False):
             elif proc == 'PAN-PREFIX':
                 want = v[:9]
         if k not in out:
-            return 'key-lost:' + _kclass(k, config), f'{k} = {v!r} missing from loads(dumps(m)) under {codec} hex={hexbm}; message {_short(msg)}'
+            return 'key-lost:' + _kclass(k, config), f'{k} = {v!r} missing from the decoded message {ctxt}; message {_short(msg)}'
         got = out[k]
         if type(got) is not type(want) or got != want:
-            return 'value-changed:' + _kclass(k, config), f'{k}: sent {v!r}, expected back {want!r}, got {got!r} under {codec} hex={hexbm}'
+            return 'value-changed:' + _kclass(k, config), f'{k}: sent {v!r}, expected back {want!r}, got {got!r} {ctxt}'
     for k in out:
         if k in msg or k in allowed_extra:
             continue
         if icc_sent and (k == 'ICC_DATA' or k.startswith('TAG')):
             continue
-        return 'extra-key', f'unexpected key {k} = {out[k]!r} in loads(dumps(m)); message {_short(msg)}'
+        return 'extra-key', f'unexpected key {k} = {out[k]!r} in the decoded message; message {_short(msg)}'
     return None
 
 
